@@ -589,6 +589,8 @@ class Name:
             ind = name.find(b".")
             if ind > 0:
                 label, name = name[:ind], name[ind + 1 :]
+            elif ind == 0 and self.name != b".":
+                raise ValueError(f"DNS name with an empty label: {self.name!r}")
             else:
                 # This is the last label, end the loop after handling it.
                 label = name
